@@ -67,11 +67,11 @@ def make_tree(root, r):
                     f.write(r.randbytes(4096) if r.random() < 0.7 else bytes(4096))
         os.chmod(p, r.choice([0o644, 0o600, 0o755, 0o4755, 0o2755, 0o1777, 0o000, 0o444]))
         files.append(p)
-    for i in range(r.randint(1, 5)):
-        d = r.choice(dirs)
-        p = os.path.join(d, "sl%d" % i)
+    # symlink targets on both sides of the fast-symlink limit (60) and of what fits an inode body
+    for i, tgt in enumerate(["t", "../x", "a" * 59, "b" * 60, "c" * 61, "d" * 90, "e" * 120, "/" + "p" * 200, "q/" * 400 + "z"]):
+        p = os.path.join(r.choice(dirs), "sl%d" % i)
         if not os.path.lexists(p):
-            os.symlink(r.choice(["t", "../x", "a" * 59, "b" * 60, "c" * 61, "/" + "p" * 200, "q/" * 400 + "z"]), p)
+            os.symlink(tgt, p)
     for i in range(r.randint(0, 3)):
         if files:
             p = os.path.join(r.choice(dirs), "hard%d" % i)
@@ -81,11 +81,17 @@ def make_tree(root, r):
     if not os.path.lexists(p):
         os.mkfifo(p)
         os.chmod(p, 0o640)
+        q = os.path.join(r.choice(dirs), "fifo_second_name")       # hard links are not only for regular files
+        if not os.path.lexists(q):
+            os.link(p, q)
     for kind, nm in ((stat.S_IFCHR, "chr"), (stat.S_IFBLK, "blk")):
         p = os.path.join(r.choice(dirs), nm)
         try:
             if not os.path.lexists(p):
                 os.mknod(p, kind | 0o660, os.makedev(r.randint(1, 250), r.randint(0, 250)))
+                q = os.path.join(r.choice(dirs), nm + "_second_name")
+                if not os.path.lexists(q):
+                    os.link(p, q)
         except OSError:
             pass
     for p in files[:6]:
